@@ -79,6 +79,47 @@ def judge(case):
     return msgs
 
 
+def judge_large(case):
+    """Large total_num_cells (the matrix is sparse for exactly this use): compare the stored entries with a dictionary
+    model of the counting rule; nothing may be stored outside the model's support."""
+    from molgri.molecules.transitions import MSM
+    traj = np.array([NAN if (x is None or x == "nan") else float(x) for x in case["traj"]], dtype=float)
+    n, tau, noncorr = int(case["n_cells"]), int(case["tau"]), bool(case["noncorr"])
+    try:
+        with quiet():
+            got = MSM(traj, n).get_one_tau_transition_matrix(tau, noncorrelated_windows=noncorr).tocoo()
+    except Exception as e:
+        return [f"exception {type(e).__name__}: {e}"]
+    if got.shape != (n, n):
+        return [f"shape {got.shape}"]
+    counts = {}
+    step = tau if noncorr else 1
+    for k in range(0, len(traj) - tau, step):
+        a, b = traj[k], traj[k + tau]
+        if a == a and b == b:
+            a, b = int(a), int(b)
+            counts[(a, b)] = counts.get((a, b), 0) + 1
+            counts[(b, a)] = counts.get((b, a), 0) + 1
+    rows = {}
+    for (a, b), c in counts.items():
+        rows[a] = rows.get(a, 0) + c
+    want = {k: c / rows[k[0]] for k, c in counts.items()}
+    seen = {}
+    for r, c, v in zip(got.row.tolist(), got.col.tolist(), got.data.tolist()):
+        if v != 0:
+            seen[(r, c)] = seen.get((r, c), 0.0) + v
+    for k, v in seen.items():
+        if k not in want:
+            return [f"entry {k} = {v!r} although the counting rule gives 0 (cell {k[0]} "
+                    f"{'is never visited' if k[0] not in rows else 'has no such transition'})"]
+        if abs(v - want[k]) > 1e-12:
+            return [f"entry {k} = {v!r}, counting rule gives {want[k]!r}"]
+    missing = [k for k in want if k not in seen]
+    if missing:
+        return [f"entry {missing[0]} missing, counting rule gives {want[missing[0]]!r}"]
+    return []
+
+
 def is_nontrivial(case):
     traj = case["traj"]
     tau = case["tau"]
@@ -156,6 +197,27 @@ def _hyp_shard(arg):
 
     res = Result()
     run_hypothesis(builder, res, shard, n_examples)
+
+    def big_builder(res, fail):
+        @st.composite
+        def big_cases(draw):
+            n_cells = draw(st.sampled_from([65535, 65536, 65537, 70000, 100000, 250000, 10 ** 6, 3 * 10 ** 6]))
+            k = draw(st.integers(1, 6))
+            # a handful of visited cells, biased to the ends of the index range
+            cells = [draw(st.one_of(st.integers(0, 50), st.integers(n_cells - 50, n_cells - 1), st.integers(0, n_cells - 1)))
+                     for _ in range(k)]
+            L = draw(st.integers(2, 60))
+            traj = [cells[draw(st.integers(0, k - 1))] if draw(st.integers(0, 9)) else None for _ in range(L)]
+            return {"traj": traj, "n_cells": n_cells, "tau": draw(st.integers(1, 5)), "noncorr": draw(st.booleans()), "large": True}
+
+        @given(big_cases())
+        def test(case):
+            msgs = judge_large(case)
+            res.case(sample=case, nontrivial=is_nontrivial(case), key=case, classes=["large_cell_count(>=65535)"])
+            if msgs:
+                fail(case, "; ".join(msgs))
+        return test
+    run_hypothesis(big_builder, res, 500 + shard, max(10, n_examples // 4))
     # the all-tau helper must agree with the single-tau function
     from molgri.molecules.transitions import MSM
     rng = np.random.default_rng([shard, 12])
@@ -178,6 +240,8 @@ def _hyp_shard(arg):
 
 
 def replay(case):
+    if case.get("large"):
+        return judge_large(case)
     if case.get("all_tau"):
         from molgri.molecules.transitions import MSM
         traj = np.array([NAN if (x is None or x == "nan") else float(x) for x in case["traj"]])
@@ -214,7 +278,7 @@ def run(tier):
     res.violations.sort(key=lambda v: (len(v["case"]["traj"]), str(v["case"])))
     rule = (f"exhaustive: every trajectory of length 0..{max_len} over {len(alphabet) - 1} cells + NaN, tau in {list(taus)}, "
             f"both window modes, {n_cells} cells (one never visited), tau passed as int/np.int64/float/str; plus Hypothesis "
-            f"trajectories up to length 300, <=15 cells, tau<=40, NaN runs. Non-trivial = at least one counted window and "
+            f"trajectories up to length 300, <=15 cells, tau<=40, NaN runs, and sparse comparisons for 65 535 .. 3 000 000 cells with a few visited cells at both ends of the index range. Non-trivial = at least one counted window and "
             f"(a NaN frame or a revisited cell); distinct = distinct (trajectory, tau, mode, cells).")
     return res, rule, {"exhaustive": False, "extra": {"exhaustive_part_evaluations": n_exh,
                                                       "exhaustive_part": "the short-trajectory enumeration was completed"},
